@@ -424,7 +424,10 @@ class Index(IndexBase):
                         self._map = labels._map
                 # get a reference to the immutable arrays, even if this is an IndexGO index, we can take the cached arrays, assuming they are up to date; for datetime64 indices, we might need to translate to a different type
                 positions = labels._positions
-                loc_is_iloc = labels._map is None
+                # labels are their own positions only as long as they are not converted: a typed (datetime64) index, or one given a dtype, builds its mapping from the converted labels
+                loc_is_iloc = (labels._map is None
+                        and not is_typed
+                        and (dtype is None or dtype == labels._labels.dtype))
                 labels = labels._labels
             else: # IndexHierarchy
                 # will be a generator of tuples; already updated caches
